@@ -2,5 +2,7 @@
    bool, option, unit, list, prod, sumbool, sumor map to OCaml's; N/positive/nat stay Coq data). *)
 From Coq Require Import Extraction ExtrOcamlBasic.
 From FatVerif Require Import Model.Base Model.Time Model.Str Model.Slot Spec.Image Spec.Abs Spec.Wf Spec.Tree.
+From FatVerif Require Import Model.Table Model.Fat.
 Separate Extraction
-  Model.Base Model.Time Model.Str Model.Slot Spec.Image Spec.Abs Spec.Wf Spec.Tree.
+  Model.Base Model.Time Model.Str Model.Slot Spec.Image Spec.Abs Spec.Wf Spec.Tree
+  Model.Table Model.Fat.
